@@ -23,7 +23,8 @@ pub fn bounds(sc: &Scenario) -> Vec<(&'static str, usize)> {
         // cap 128, plus what one call can flush before the disconnect takes effect
         ("pending_spec", 128 + mp + md + 3),
         ("recv_inputs", 2 * mp.max(sc.specs.iter().map(|s| s.window as usize).max().unwrap_or(0)) + 2),
-        ("pending_checksums", 33),
+        // documented queue size 32, plus reports that overtook the one which triggered the pruning (reordering)
+        ("pending_checksums", 48),
         ("checksum_hist", 33),
         ("send_queue_after_poll", 4),
     ]
@@ -114,6 +115,9 @@ pub fn eval(sc: &Scenario) -> CaseResult {
     if sc.ops.iter().any(|o| matches!(o, Op::LinkDown { from, .. } if *from > 100)) {
         r.classes.push("silent_spectator");
     }
+    if sc.desync > 0 && sc.peers.iter().any(|p| p.no_checksum) {
+        r.classes.push("one_game_without_checksums");
+    }
     if sc.ops.iter().any(|o| matches!(o, Op::Kill { .. })) {
         r.classes.push("all_remotes_gone_survivor_plays_on");
     }
@@ -164,6 +168,11 @@ pub fn gen(tier: Tier) -> BoxedStrategy<Scenario> {
                     sc.ops.push(Op::Profile { tick: 2 * q, profile: sc.link });
                     sc.ops.push(Op::Profile { tick: 3 * q, profile: LinkProfile { loss: 40, dup: 0, lat_min: sc.link.lat_min, lat_max: sc.link.lat_max } });
                 }
+                3 if sc.peers.len() >= 2 => {
+                    // asymmetric desync detection: one game never supplies checksums, the others report every frame
+                    sc.desync = 1 + (t % 2) as u8;
+                    sc.peers[0].no_checksum = true;
+                }
                 _ => {}
             }
             sc
@@ -175,7 +184,7 @@ pub fn run_prop(ctx: &Ctx) -> PropReport {
     let mut rep = PropReport::new("C18", "exploration");
     let tier = ctx.tier;
     rep.part(|| run_random(ctx, "long_runs",
-        "long histories (2000-2600 ticks quick, 6000-9000 thorough) over C01's topologies plus all-local sessions, a fifth each with events never drained / a spectator whose acknowledgements stop / 40%-loss phases / the only remote peer dying early while the survivor plays on alone, desync detection mostly on with interval 1-2; after EVERY call the buffer sizes (verif-hooks accessor) must satisfy: events <= 100, outgoing_local_inputs == 0 (static equal delays), pending_output <= 2*window + 2*max_delay + 4 for player endpoints and <= 128 + window + max_delay + 3 for spectator endpoints, recv_inputs <= 2*window + 2, pending_checksums <= 33, local_checksum_history <= 33, send_queue <= 4 after a call; the second half's maximum must not exceed twice the first half's plus 8 (drift = leak: a leak grows linearly with the run length, fluctuations of a lossy link do not) under stationary schedules; a silent spectator must get exactly one Disconnected; non-trivial = >= 1000 frames simulated",
+        "long histories (2000-2600 ticks quick, 6000-9000 thorough) over C01's topologies plus all-local sessions, a fifth each with events never drained / one game saving without checksums while the others report every frame / a spectator whose acknowledgements stop / 40%-loss phases / the only remote peer dying early while the survivor plays on alone, desync detection mostly on with interval 1-2; after EVERY call the buffer sizes (verif-hooks accessor) must satisfy: events <= 100, outgoing_local_inputs == 0 (static equal delays), pending_output <= 2*window + 2*max_delay + 4 for player endpoints and <= 128 + window + max_delay + 3 for spectator endpoints, recv_inputs <= 2*window + 2, pending_checksums <= 48 (32 + reordered reports; one game in a fifth of the runs never supplies checksums, so its session only ever stores the others' reports), local_checksum_history <= 33, send_queue <= 4 after a call; the second half's maximum must not exceed twice the first half's plus 8 (drift = leak: a leak grows linearly with the run length, fluctuations of a lossy link do not) under stationary schedules; a silent spectator must get exactly one Disconnected; non-trivial = >= 1000 frames simulated",
         || gen(tier), ctx.tier.pick(1500, 6000), eval));
     rep.floors.push(("long_runs".into(), 0.5));
     rep.assumptions = vec!["buffer sizes are read through the verif-hooks accessor after every advance_frame / poll_remote_clients call".into(), "bounds are derived from the code in props/c18.rs::bounds and stated there".into()];
